@@ -58,6 +58,25 @@ def cases(rng, tier):
         yield {"op": "C19.unquote", "tag": "unquote", "expr": g_quoted(rng, rng.randint(1, 3))}
     for _ in range(1500 if tier == "quick" else 30000):
         yield {"tag": "roundtrip", "expr": g_expr(rng, rng.randint(1, 4), "I")}
+    # conditional expressions with every loosely-binding shape in every position (then / condition / else), bare and as
+    # an operand: where a branch ends is exactly what a parser gets wrong
+    X, Y, Z, W = ["v", "x"], ["v", "y"], ["v", "<cond>c"], ["v", "n"]
+    cmp_ = ["cmp", "<", X, Y]
+    loose_b = [["or", [Z, cmp_]], ["and", [Z, cmp_]], ["not", Z], cmp_, ["if", Z, cmp_, ["not", Z]], ["cmp", "==", Z, ["not", Z]]]
+    loose_i = [["+", [X, Y]], ["*", [["c", -1], X]], ["if", Z, X, Y], ["**", X, ["c", 2]], ["/", X, Y]]
+    for shape in loose_b:
+        for e in (["if", Z, shape, Z], ["if", shape, Z, cmp_], ["if", Z, Z, shape], ["if", shape, shape, shape]):
+            yield {"tag": "roundtrip-conditional-positions", "expr": e}
+            yield {"tag": "roundtrip-conditional-positions", "expr": ["and", [e, Z]]}
+            yield {"tag": "roundtrip-conditional-positions", "expr": ["or", [Z, e]]}
+            yield {"tag": "roundtrip-conditional-positions", "expr": ["not", e]}
+    for shape in loose_i:
+        for e in (["if", Z, shape, W], ["if", cmp_, W, shape], ["if", ["cmp", "<", shape, W], shape, shape]):
+            yield {"tag": "roundtrip-conditional-positions", "expr": e}
+            yield {"tag": "roundtrip-conditional-positions", "expr": ["+", [e, W]]}
+            yield {"tag": "roundtrip-conditional-positions", "expr": ["*", [W, e]]}
+            yield {"tag": "roundtrip-conditional-positions", "expr": ["call", "<func>f", [e], [["k", e]]]}
+            yield {"tag": "roundtrip-conditional-positions", "expr": ["sub", ["v", "<state>y"], e]}
     for _ in range(300 if tier == "quick" else 4000):
         yield {"tag": "roundtrip-twins", "expr": g_twins(rng)}
     for _ in range(400 if tier == "quick" else 6000):
